@@ -1,14 +1,936 @@
+//! `validate-history` engine — property C13.
+//!
+//! System: the four validation entry points (`validate_network_rules` full and
+//! stop-on-first, `SwiftMessage::validate`, `ParsedSwiftMessage::validate`, the
+//! `validate_mt` plugin handler alone and inside a dataflow `Engine`), driven
+//! by 1–4 caller threads released one at a time by a seeded scheduler, under
+//! simulated hash entropy and a simulated wall clock with jumps between
+//! operations. Reference model: "validation is a function of the message".
+
+use crate::mt;
+use crate::on_parsed;
+use crate::scen;
+use crate::seam;
 use crate::sim::*;
+use crate::util::*;
+use dataflow_rs::engine::{AsyncFunctionHandler, FunctionConfig, Message, Workflow};
 use serde::{Deserialize, Serialize};
+use serde_json::{json, Value};
+use std::collections::{BTreeMap, HashMap};
+use std::sync::{mpsc, Arc};
+use swift_mt_message::{ParsedSwiftMessage, ValidationError};
+
+#[derive(Serialize, Deserialize, Clone, Debug, PartialEq)]
+pub enum MutOp {
+    Set { path: Vec<String>, value: Value },
+    Del { path: Vec<String> },
+    Put { path: Vec<String>, key: String, value: Value },
+    Dup { path: Vec<String> },
+    Rm { path: Vec<String> },
+}
+
+#[derive(Serialize, Deserialize, Clone, Debug, PartialEq)]
+pub enum MutPlan {
+    /// seeded hill-climb towards `target` reported errors (search step; the
+    /// run records the accepted mutations as an `Explicit` plan)
+    Climb { seed: u64, target: usize, attempts: usize },
+    Explicit(Vec<MutOp>),
+}
+
+#[derive(Serialize, Deserialize, Clone, Debug, PartialEq)]
+pub struct SubjectSpec {
+    pub scenario: String,
+    pub donor: String,
+    pub plan: MutPlan,
+}
+
+#[derive(Serialize, Deserialize, Clone, Copy, Debug, PartialEq)]
+pub enum OpKind {
+    VnrFull,
+    VnrStop,
+    SwiftValidate,
+    ParsedValidate,
+    PluginDirect,
+    PluginEngine,
+    CloneVnr,
+    Snapshot,
+}
+
+#[derive(Serialize, Deserialize, Clone, Debug, PartialEq)]
+pub struct Op {
+    pub caller: usize,
+    pub subject: usize,
+    pub kind: OpKind,
+    /// scheduler-injected wall-clock jump before this operation (0 = none)
+    pub jump_ns: i64,
+}
+
 #[derive(Serialize, Deserialize, Clone, Debug)]
-pub struct Spec { pub run_seed: u64 }
+pub struct Spec {
+    pub run_seed: u64,
+    pub subjects: Vec<SubjectSpec>,
+    pub e_w: u64,
+    pub e_h: u64,
+    pub paired_e_h: u64,
+    pub paired_sched: u64,
+    pub clock: ClockCfg,
+    pub callers: usize,
+    pub ops: Vec<Op>,
+}
+
 pub struct C13;
+
+// ---------------------------------------------------------------- mutation
+
+const CUR: &[&str] = &["USD", "EUR", "JPY", "GBP", "CHF", "BHD", "XAU", "XXX", "KWD", "CLF"];
+const CODES: &[&str] = &[
+    "CHQB", "SPRI", "SSTD", "SPAY", "CRED", "CRTS", "OUR", "BEN", "SHA", "SDVA", "INTC", "REPA", "CORT", "HOLD", "PHOB", "TELB", "PHON", "RTGS", "NETS", "URGP", "OTHR", "CMTO", "AUTH", "NAUT", "RFDD", "RTND",
+    "EQUI", "TELE", "PHOI", "TELI", "NCHG", "NINT", "940", "941", "942", "950", "103", "202", "C", "D", "RC", "RD", "ABCD", "CHEQ", "COLL", "FDDW", "ACCT", "DIRT",
+];
+const LINES: &[&str] = &["/REJT/", "/RETN/", "/INS/ABNANL2A", "/ACC/TEXT", "/RCB/ABC", "//CONT", "/PURP/CASH", "REJT", "/CLSTIME/0915+0100", "/REC/X", "/INT/Y"];
+const POOL: &[&str] = &[
+    "EUR", "USD", "JPY", "BHD", "XAU", "CHQB", "SPRI", "SSTD", "SPAY", "CRED", "CRTS", "OUR", "BEN", "SHA", "SDVA", "INTC", "REPA", "CORT", "HOLD", "PHOB", "TELB", "PHON", "RTGS", "NETS", "URGP", "OTHR", "CMTO", "AUTH", "NAUT", "RFDD",
+    "RTND", "/REJT/", "/RETN/X", "C", "D", "RC", "RD", "940", "942", "950", "103", "ABCDEF", "DEUTDEFF", "CHASUS33XXX", "/ACC", "/12345678", "AD", "GB", "US",
+];
+
+fn leaves(v: &Value, path: Vec<String>, out: &mut Vec<(Vec<String>, bool)>) {
+    match v {
+        Value::Object(o) => {
+            for (k, x) in o {
+                let mut p = path.clone();
+                p.push(k.clone());
+                out.push((p.clone(), false));
+                leaves(x, p, out);
+            }
+        }
+        Value::Array(a) => {
+            for (i, x) in a.iter().enumerate() {
+                let mut p = path.clone();
+                p.push(i.to_string());
+                out.push((p.clone(), false));
+                leaves(x, p, out);
+            }
+        }
+        _ => {
+            if let Some(l) = out.last_mut() {
+                l.1 = true;
+            }
+        }
+    }
+}
+
+fn get_mut<'a>(v: &'a mut Value, p: &[String]) -> Option<&'a mut Value> {
+    let mut c = v;
+    for k in p {
+        c = match c {
+            Value::Object(o) => o.get_mut(k)?,
+            Value::Array(a) => a.get_mut(k.parse::<usize>().ok()?)?,
+            _ => return None,
+        };
+    }
+    Some(c)
+}
+
+fn get<'a>(v: &'a Value, p: &[String]) -> Option<&'a Value> {
+    let mut c = v;
+    for k in p {
+        c = match c {
+            Value::Object(o) => o.get(k)?,
+            Value::Array(a) => a.get(k.parse::<usize>().ok()?)?,
+            _ => return None,
+        };
+    }
+    Some(c)
+}
+
+pub fn apply_op(g: &mut Value, op: &MutOp) -> bool {
+    match op {
+        MutOp::Set { path, value } => match get_mut(g, path) {
+            Some(t) => {
+                *t = value.clone();
+                true
+            }
+            None => false,
+        },
+        MutOp::Del { path } => {
+            let (par, last) = path.split_at(path.len().saturating_sub(1));
+            match (get_mut(g, par), last.first()) {
+                (Some(Value::Object(o)), Some(k)) => o.remove(k).is_some(),
+                _ => false,
+            }
+        }
+        MutOp::Put { path, key, value } => match get_mut(g, path) {
+            Some(Value::Object(o)) => {
+                o.insert(key.clone(), value.clone());
+                true
+            }
+            _ => false,
+        },
+        MutOp::Dup { path } | MutOp::Rm { path } => {
+            let (par, last) = path.split_at(path.len().saturating_sub(1));
+            let Some(i) = last.first().and_then(|s| s.parse::<usize>().ok()) else { return false };
+            match get_mut(g, par) {
+                Some(Value::Array(a)) if i < a.len() => {
+                    if matches!(op, MutOp::Dup { .. }) {
+                        let e = a[i].clone();
+                        a.insert(i, e);
+                    } else {
+                        if a.len() <= 1 {
+                            return false;
+                        }
+                        a.remove(i);
+                    }
+                    true
+                }
+                _ => false,
+            }
+        }
+    }
+}
+
+/// One rule-directed mutation proposal (typed by JSON key), as an explicit op.
+fn propose(g: &Value, donor: &Value, r: &mut Sm) -> Option<MutOp> {
+    let mut ls = vec![];
+    leaves(&g["fields"], vec!["fields".into()], &mut ls);
+    if ls.is_empty() {
+        return None;
+    }
+    let s = |x: &&str| Value::String(x.to_string());
+    match r.below(11) {
+        0..=3 => {
+            let cand: Vec<_> = ls.iter().filter(|(_, l)| *l).collect();
+            if cand.is_empty() {
+                return None;
+            }
+            let (p, _) = cand[r.below(cand.len())].clone();
+            let key = p.iter().rev().find(|k| k.parse::<usize>().is_err()).cloned().unwrap_or_default();
+            let t = get(g, &p)?;
+            let value = if key == "currency" {
+                s(r.pick(CUR))
+            } else if key.contains("code") || key == "debit_credit_mark" || key == "message_type" || key == "indicator" || key == "sign" || key == "mark" {
+                s(r.pick(CODES))
+            } else if t.is_number() {
+                let f = t.as_f64().unwrap_or(0.0);
+                json!(match r.below(6) {
+                    0 => f + 1.0,
+                    1 => f * 10.0,
+                    2 => 0.0,
+                    3 => f + 0.001,
+                    4 => f + 0.01,
+                    _ => (f / 2.0).floor(),
+                })
+            } else if key == "narrative" || key == "information" || key == "details" || key == "name_and_address" || key == "lines" {
+                s(r.pick(LINES))
+            } else if key == "bic" {
+                s(r.pick(&["DEUTDEFF", "CHASUS33", "CHASUS33XXX", "BNPAFRPP", "ABNANL2A"]))
+            } else if key == "account" || key == "party_identifier" {
+                s(r.pick(&["/C/12345", "12345678", "/CH123456", "DE89370400440532013000", "/D/999"]))
+            } else {
+                s(r.pick(POOL))
+            };
+            Some(MutOp::Set { path: p, value })
+        }
+        4 | 5 => {
+            let cand: Vec<_> = ls.iter().filter(|(p, _)| p.last().is_some_and(|k| k.parse::<usize>().is_err()) && p.len() <= 4 && p.len() >= 2).collect();
+            if cand.is_empty() {
+                return None;
+            }
+            Some(MutOp::Del { path: cand[r.below(cand.len())].0.clone() })
+        }
+        6 => {
+            // copy a field object into a sibling object lacking/holding it (sequence A <-> sequence elements)
+            let objs: Vec<Vec<String>> = std::iter::once(vec!["fields".to_string()]).chain(ls.iter().filter(|(p, _)| p.len() == 3 && p[2].parse::<usize>().is_ok()).map(|(p, _)| p.clone())).collect();
+            let a = objs[r.below(objs.len())].clone();
+            let b = objs[r.below(objs.len())].clone();
+            if a == b {
+                return None;
+            }
+            let so = get(g, &a)?.as_object()?;
+            let keys: Vec<&String> = so.keys().filter(|k| *k != "#").collect();
+            if keys.is_empty() {
+                return None;
+            }
+            let k = keys[r.below(keys.len())].clone();
+            Some(MutOp::Put { path: b, key: k.clone(), value: so[&k].clone() })
+        }
+        7 | 8 => {
+            // donor: a field from another draw of the same message type
+            let df = donor.get("fields")?.as_object()?;
+            let keys: Vec<&String> = df.keys().filter(|k| *k != "#").collect();
+            if keys.is_empty() {
+                return None;
+            }
+            let k = keys[r.below(keys.len())].clone();
+            if r.below(3) == 0 {
+                if let Some(Value::Array(a)) = g["fields"].get("#") {
+                    if !a.is_empty() {
+                        let i = r.below(a.len());
+                        return Some(MutOp::Put { path: vec!["fields".into(), "#".into(), i.to_string()], key: k.clone(), value: df[&k].clone() });
+                    }
+                }
+            }
+            Some(MutOp::Put { path: vec!["fields".into()], key: k.clone(), value: df[&k].clone() })
+        }
+        9 => {
+            let cand: Vec<_> = ls.iter().filter(|(p, _)| p.last().is_some_and(|k| k.parse::<usize>().is_ok())).collect();
+            if cand.is_empty() {
+                return None;
+            }
+            Some(MutOp::Dup { path: cand[r.below(cand.len())].0.clone() })
+        }
+        _ => {
+            let cand: Vec<_> = ls.iter().filter(|(p, _)| p.last().is_some_and(|k| k.parse::<usize>().is_ok())).collect();
+            if cand.is_empty() {
+                return None;
+            }
+            Some(MutOp::Rm { path: cand[r.below(cand.len())].0.clone() })
+        }
+    }
+}
+
+pub struct Subject {
+    pub mt: String,
+    pub text: String,
+    pub parsed: ParsedSwiftMessage,
+    pub snap: (u64, u64),
+}
+
+/// JSON → MT text → auto-detected parse, all through the library; `None` when
+/// the library rejects the message (outside C13's domain) or panics.
+fn build(mt_hint: &str, g: &Value) -> Option<(String, ParsedSwiftMessage)> {
+    std::panic::catch_unwind(std::panic::AssertUnwindSafe(|| {
+        let text = mt::json_to_text(mt_hint, g).ok()?;
+        let p = mt::parse_auto(&text).ok()?;
+        Some((text, p))
+    }))
+    .ok()
+    .flatten()
+}
+
+fn nerr(p: &ParsedSwiftMessage) -> Option<usize> {
+    std::panic::catch_unwind(std::panic::AssertUnwindSafe(|| mt::vnr(p, false).len())).ok()
+}
+
+fn snap_digest(p: &ParsedSwiftMessage) -> (u64, u64) {
+    let (j, t) = mt::snapshot(p);
+    (fnv_str(&j.to_string()), fnv_str(&t))
+}
+
+// ---------------------------------------------------------------- operations
+
+#[derive(Clone, Debug, PartialEq)]
+enum OpResult {
+    Errors(Vec<Value>, Vec<String>),
+    VResult { is_valid: bool, errors: Vec<Value>, warnings: usize },
+    Plugin { out: Value, exec_err: Option<String>, polls: u32 },
+    Snap(u64, u64),
+    Panicked(String),
+    Harness(String),
+}
+
+fn errs_to_values(v: &[swift_mt_message::SwiftValidationError]) -> OpResult {
+    OpResult::Errors(v.iter().map(|e| serde_json::to_value(e).unwrap_or(Value::Null)).collect(), v.iter().map(|e| e.error_code().to_string()).collect())
+}
+
+fn vres(r: swift_mt_message::ValidationResult) -> OpResult {
+    OpResult::VResult { is_valid: r.is_valid, errors: r.errors.iter().map(|e| serde_json::to_value(e).unwrap_or(Value::Null)).collect(), warnings: r.warnings.len() }
+}
+
+fn exec_op(kind: OpKind, s: &Subject) -> OpResult {
+    match kind {
+        OpKind::VnrFull => errs_to_values(&mt::vnr(&s.parsed, false)),
+        OpKind::VnrStop => errs_to_values(&mt::vnr(&s.parsed, true)),
+        OpKind::SwiftValidate => vres(mt::swift_validate(&s.parsed)),
+        OpKind::ParsedValidate => vres(s.parsed.validate()),
+        OpKind::CloneVnr => {
+            let c = s.parsed.clone();
+            errs_to_values(&mt::vnr(&c, false))
+        }
+        OpKind::Snapshot => {
+            let (a, b) = snap_digest(&s.parsed);
+            OpResult::Snap(a, b)
+        }
+        OpKind::PluginDirect => {
+            let mut msg = Message::from_value(&json!({}));
+            msg.data_mut()["mt"] = Value::String(s.text.clone());
+            msg.invalidate_context_cache();
+            let cfg = FunctionConfig::Custom { name: "validate_mt".into(), input: json!({"source": "mt", "target": "vr"}) };
+            let h = swift_mt_message::plugin::Validate;
+            match block_on(h.execute(&mut msg, &cfg, Arc::new(datalogic_rs::DataLogic::new()))) {
+                Ok((r, polls)) => OpResult::Plugin { out: msg.data().get("vr").cloned().unwrap_or(Value::Null), exec_err: r.err().map(|e| format!("{e:?}")), polls },
+                Err(e) => OpResult::Harness(e),
+            }
+        }
+        OpKind::PluginEngine => {
+            let wf = json!({"id": "v", "name": "v", "priority": 0, "tasks": [
+                {"id": "validate", "name": "validate", "function": {"name": "validate_mt", "input": {"source": "payload", "target": "vr"}}}]});
+            let wf = match Workflow::from_json(&wf.to_string()) {
+                Ok(w) => w,
+                Err(e) => return OpResult::Harness(format!("workflow: {e:?}")),
+            };
+            let mut fns: HashMap<String, Box<dyn AsyncFunctionHandler + Send + Sync>> = HashMap::new();
+            for (n, h) in swift_mt_message::plugin::register_swift_mt_functions() {
+                fns.insert(n.to_string(), h);
+            }
+            let engine = dataflow_rs::Engine::new(vec![wf], Some(fns));
+            let mut msg = Message::from_value(&Value::String(s.text.clone()));
+            match block_on(engine.process_message(&mut msg)) {
+                Ok((r, polls)) => {
+                    let mut err = r.err().map(|e| format!("{e:?}"));
+                    if err.is_none() && !msg.errors.is_empty() {
+                        err = Some(msg.errors[0].message.clone());
+                    }
+                    OpResult::Plugin { out: msg.data().get("vr").cloned().unwrap_or(Value::Null), exec_err: err, polls }
+                }
+                Err(e) => OpResult::Harness(e),
+            }
+        }
+    }
+}
+
+fn digest_result(r: &OpResult) -> String {
+    match r {
+        OpResult::Errors(v, codes) => format!("errors[{}] {} {}", v.len(), codes.join(","), hex(fnv_str(&serde_json::to_string(v).unwrap_or_default()))),
+        OpResult::VResult { is_valid, errors, warnings } => format!("vresult valid={is_valid} errors={} warnings={warnings} {}", errors.len(), hex(fnv_str(&serde_json::to_string(errors).unwrap_or_default()))),
+        OpResult::Plugin { out, exec_err, polls } => {
+            let mut o = out.clone();
+            if let Some(m) = o.as_object_mut() {
+                m.remove("timestamp");
+            }
+            format!("plugin valid={} errors={} polls={polls} err={} {}", out["valid"], out["errors"].as_array().map(|a| a.len()).unwrap_or(0), exec_err.is_some(), hex(fnv_str(&o.to_string())))
+        }
+        OpResult::Snap(a, b) => format!("snap {} {}", hex(*a), hex(*b)),
+        OpResult::Panicked(p) => format!("panicked {}", p.chars().take(60).collect::<String>()),
+        OpResult::Harness(h) => format!("harness {h}"),
+    }
+}
+
+fn viol(class: String, detail: String) -> Violation {
+    Violation { property: "C13".into(), class, detail }
+}
+
+fn first_diff_code(a: &[Value], ac: &[String], b: &[Value], bc: &[String]) -> String {
+    for i in 0..a.len().max(b.len()) {
+        if a.get(i) != b.get(i) {
+            return ac.get(i).or(bc.get(i)).cloned().unwrap_or_default();
+        }
+    }
+    String::new()
+}
+
+fn show_errs(v: &[Value]) -> String {
+    let s: Vec<String> = v.iter().map(|e| short(e)).collect();
+    format!("[{}]", s.join(" ; ")).chars().take(700).collect()
+}
+
+/// History record of one phase, and the invariants over it.
+struct History {
+    /// per subject: results by kind, in issue order
+    recs: Vec<(usize, usize, usize, OpKind, OpResult)>, // (seq, caller, subject, kind, result)
+}
+
+impl History {
+    /// L(m): the list returned by the first full validation of subject m.
+    fn l(&self, m: usize) -> Option<(&Vec<Value>, &Vec<String>)> {
+        self.recs.iter().find_map(|r| match (&r.4, r.3, r.2 == m) {
+            (OpResult::Errors(v, c), OpKind::VnrFull, true) => Some((v, c)),
+            _ => None,
+        })
+    }
+
+    fn check(&self, subjects: &[Subject]) -> Option<Violation> {
+        for (m, s) in subjects.iter().enumerate() {
+            let mt = format!("MT{}", s.mt);
+            let Some((l, lc)) = self.l(m) else { continue };
+            let mut plugin_ref: Option<(usize, Value)> = None;
+            let mut vres_ref: BTreeMap<&'static str, (usize, &OpResult)> = BTreeMap::new();
+            for (seq, caller, sm, kind, res) in &self.recs {
+                if *sm != m {
+                    continue;
+                }
+                match (kind, res) {
+                    (OpKind::VnrFull | OpKind::CloneVnr, OpResult::Errors(v, c)) => {
+                        if v != l {
+                            let code = first_diff_code(l, lc, v, c);
+                            return Some(viol(
+                                format!("C13/I1 {mt} {code} repeated validation differs"),
+                                format!("operation {seq} ({kind:?} by caller {caller}) on subject {m} returned {} but the first full validation returned {}", show_errs(v), show_errs(l)),
+                            ));
+                        }
+                    }
+                    (OpKind::VnrStop, OpResult::Errors(v, c)) => {
+                        let is_prefix = v.len() <= l.len() && v[..] == l[..v.len()];
+                        if !is_prefix {
+                            return Some(viol(
+                                format!("C13/I2 {mt} stop-on-first result is not a prefix of the full list"),
+                                format!("operation {seq} on subject {m}: stop-on-first returned codes {c:?} {}, full list has codes {lc:?} {}", show_errs(v), show_errs(l)),
+                            ));
+                        }
+                        if v.is_empty() != l.is_empty() {
+                            return Some(viol(
+                                format!("C13/I2 {mt} stop-on-first empty although the full list is not"),
+                                format!("operation {seq} on subject {m}: stop-on-first returned {} error(s), the full list has codes {lc:?}", v.len()),
+                            ));
+                        }
+                    }
+                    (OpKind::SwiftValidate | OpKind::ParsedValidate, OpResult::VResult { is_valid, errors, .. }) => {
+                        let (inv, name) = if *kind == OpKind::SwiftValidate { ("I3", "SwiftMessage::validate") } else { ("I4", "ParsedSwiftMessage::validate") };
+                        let mut bad = *is_valid != l.is_empty() || errors.len() != l.len();
+                        if !bad {
+                            for (e, code) in errors.iter().zip(lc.iter()) {
+                                if let Ok(ValidationError::BusinessRuleValidation { rule_name, .. }) = serde_json::from_value::<ValidationError>(e.clone()) {
+                                    if &rule_name != code {
+                                        bad = true;
+                                    }
+                                }
+                            }
+                        }
+                        if bad {
+                            return Some(viol(
+                                format!("C13/{inv} {mt} {name} disagrees with the full list"),
+                                format!("operation {seq} on subject {m}: {name} returned is_valid={is_valid} with {} error(s) {}; the full list has codes {lc:?}", errors.len(), show_errs(errors)),
+                            ));
+                        }
+                        let key = if *kind == OpKind::SwiftValidate { "swift" } else { "parsed" };
+                        match vres_ref.get(key) {
+                            Some((s0, r0)) if *r0 != res => {
+                                return Some(viol(
+                                    format!("C13/I1 {mt} {name} repeated call differs"),
+                                    format!("operations {s0} and {seq} on subject {m} returned different results: {} vs {}", digest_result(r0), digest_result(res)),
+                                ));
+                            }
+                            None => {
+                                vres_ref.insert(key, (*seq, res));
+                            }
+                            _ => {}
+                        }
+                    }
+                    (OpKind::PluginDirect | OpKind::PluginEngine, OpResult::Plugin { out, exec_err, .. }) => {
+                        if let Some(e) = exec_err {
+                            return Some(viol(format!("C13/I5 {mt} plugin execution fails on a parseable message"), format!("operation {seq} on subject {m}: {e}")));
+                        }
+                        let errs = out["errors"].as_array().cloned().unwrap_or_default();
+                        let mut bad = out["valid"] != json!(l.is_empty()) || errs.len() != l.len();
+                        if !bad {
+                            for (e, code) in errs.iter().zip(lc.iter()) {
+                                if !e.as_str().is_some_and(|s| s.starts_with(&format!("[{code}]"))) {
+                                    bad = true;
+                                }
+                            }
+                        }
+                        if !bad && out.get("message_type").and_then(|v| v.as_str()) != Some(s.parsed.message_type()) {
+                            bad = true;
+                        }
+                        if bad {
+                            return Some(viol(
+                                format!("C13/I5 {mt} plugin verdict disagrees with the full list"),
+                                format!("operation {seq} on subject {m}: plugin returned valid={} message_type={} errors={}; the full list has codes {lc:?}", out["valid"], out["message_type"], short(&out["errors"])),
+                            ));
+                        }
+                        let mut o = out.clone();
+                        if let Some(mm) = o.as_object_mut() {
+                            mm.remove("timestamp");
+                        }
+                        match &plugin_ref {
+                            Some((s0, r0)) if *r0 != o => {
+                                return Some(viol(
+                                    format!("C13/I5 {mt} plugin output depends on time or call position"),
+                                    format!("operations {s0} and {seq} on subject {m} differ beyond the timestamp: {} vs {}", short(r0), short(&o)),
+                                ));
+                            }
+                            None => plugin_ref = Some((*seq, o)),
+                            _ => {}
+                        }
+                    }
+                    (OpKind::Snapshot, OpResult::Snap(a, b)) => {
+                        if (*a, *b) != s.snap {
+                            return Some(viol(
+                                format!("C13/I6 {mt} message changed by validation"),
+                                format!("snapshot at operation {seq} of subject {m} ({} / {}) differs from the one taken before the first operation ({} / {})", hex(*a), hex(*b), hex(s.snap.0), hex(s.snap.1)),
+                            ));
+                        }
+                    }
+                    _ => {}
+                }
+            }
+        }
+        None
+    }
+}
+
+struct PhaseOut {
+    history: History,
+    log: Vec<String>,
+    violation: Option<Violation>,
+    discard: Option<String>,
+    harness: Option<String>,
+    polls: u64,
+}
+
+fn run_phase(ctx: &Arc<seam::RunCtx>, e_h: u64, subjects: &Arc<Vec<Subject>>, callers: usize, ops: &[Op], rotate: usize) -> PhaseOut {
+    ctx.rekey_entropy(e_h);
+    let k = callers.clamp(1, 4);
+    let mut po = PhaseOut { history: History { recs: vec![] }, log: vec![], violation: None, discard: None, harness: None, polls: 0 };
+    let mut cmd_tx = vec![];
+    let mut resp_rx = vec![];
+    let mut handles = vec![];
+    for _ in 0..k {
+        let (ctx_c, subs) = (ctx.clone(), subjects.clone());
+        let (tx, rx) = mpsc::channel::<Option<(OpKind, usize)>>();
+        let (rtx, rrx) = mpsc::channel::<OpResult>();
+        cmd_tx.push(tx);
+        resp_rx.push(rrx);
+        handles.push(std::thread::spawn(move || {
+            let _a = seam::attach(&ctx_c);
+            while let Ok(Some((kind, m))) = rx.recv() {
+                let r = std::panic::catch_unwind(std::panic::AssertUnwindSafe(|| exec_op(kind, &subs[m]))).unwrap_or_else(|p| {
+                    OpResult::Panicked(p.downcast_ref::<String>().cloned().or(p.downcast_ref::<&str>().map(|s| s.to_string())).unwrap_or("panic".into()))
+                });
+                if rtx.send(r).is_err() {
+                    break;
+                }
+            }
+        }));
+    }
+    // closing reads: a full validation and a snapshot of every subject
+    let mut all: Vec<Op> = ops.to_vec();
+    for m in 0..subjects.len() {
+        all.push(Op { caller: m, subject: m, kind: OpKind::VnrFull, jump_ns: 0 });
+        all.push(Op { caller: m + 1, subject: m, kind: OpKind::Snapshot, jump_ns: 0 });
+    }
+    for (seq, op) in all.iter().enumerate() {
+        if subjects.is_empty() {
+            break;
+        }
+        let m = op.subject % subjects.len();
+        let c = (op.caller + rotate) % k;
+        if op.jump_ns != 0 {
+            ctx.jump_now(op.jump_ns);
+        }
+        if cmd_tx[c].send(Some((op.kind, m))).is_err() {
+            po.discard = Some("caller thread gone".into());
+            break;
+        }
+        let r = resp_rx[c].recv().unwrap_or(OpResult::Panicked("caller thread gone".into()));
+        po.log.push(format!("{seq} c{c} {:?} s{m}{} -> {}", op.kind, if op.jump_ns != 0 { format!(" jump={}ns", op.jump_ns) } else { String::new() }, digest_result(&r)));
+        match &r {
+            OpResult::Panicked(p) => {
+                po.discard = Some(format!("panic in {:?} (MT{}): {}", op.kind, subjects[m].mt, p.chars().take(60).collect::<String>()));
+                break;
+            }
+            OpResult::Harness(h) => {
+                po.harness = Some(h.clone());
+                break;
+            }
+            OpResult::Plugin { polls, .. } => po.polls += *polls as u64,
+            _ => {}
+        }
+        po.history.recs.push((seq, c, m, op.kind, r));
+        // invariants are evaluated at every return
+        if let Some(v) = po.history.check(subjects) {
+            po.violation = Some(v);
+            break;
+        }
+    }
+    for tx in &cmd_tx {
+        let _ = tx.send(None);
+    }
+    for h in handles {
+        let _ = h.join();
+    }
+    po
+}
+
 impl Engine for C13 {
     type Spec = Spec;
     const ID: &'static str = "validate-history";
     const PROPERTY: &'static str = "C13";
-    fn plan(_env: &Env, base: u64, i: u64) -> Spec { Spec { run_seed: base ^ i } }
-    fn execute(_env: &Env, _spec: &Spec) -> (Outcome, Option<Spec>) { (Outcome::default(), None) }
-    fn shrink_candidates(_spec: &Spec) -> Vec<Spec> { vec![] }
-    fn describe(_spec: &Spec) -> serde_json::Value { serde_json::Value::Null }
+
+    fn plan(env: &Env, base: u64, i: u64) -> Spec {
+        let nf = env.scenarios.len();
+        let run_seed = derive(base, "validate/run", i);
+        let mut w = Sm(derive(run_seed, "workload", 0));
+        let mut s = Sm(derive(run_seed, "sched", 0));
+        let mut cr = Sm(derive(run_seed, "clock", 0));
+        let n_subj = *w.pick(&[1usize, 1, 1, 2, 2, 3]);
+        let mut subjects = vec![];
+        for k in 0..n_subj {
+            // the first subject walks the scenario files; further subjects are drawn
+            let idx = if k == 0 { (i % nf as u64) as usize } else { w.below(nf) };
+            let sc = &env.scenarios[idx];
+            let same: Vec<&scen::Scenario> = env.scenarios.iter().filter(|x| x.mt == sc.mt).collect();
+            let donor = same[w.below(same.len())].rel.clone();
+            let target = *w.pick(&[0usize, 1, 1, 2, 2, 3, 3, 4]);
+            subjects.push(SubjectSpec { scenario: sc.rel.clone(), donor, plan: MutPlan::Climb { seed: derive(run_seed, "climb", k as u64), target, attempts: 14 } });
+        }
+        let callers = 1 + s.below(4);
+        let n_ops = 6 + s.below(19);
+        let class = cr.below(N_CLOCK_CLASSES);
+        let clock = gen_clock(class, i, &mut cr);
+        let mut ops = vec![];
+        for _ in 0..n_ops {
+            let kind = *s.pick(&[
+                OpKind::VnrFull, OpKind::VnrFull, OpKind::VnrFull, OpKind::VnrStop, OpKind::VnrStop, OpKind::VnrStop, OpKind::SwiftValidate, OpKind::SwiftValidate, OpKind::ParsedValidate, OpKind::ParsedValidate, OpKind::PluginDirect,
+                OpKind::PluginDirect, OpKind::PluginEngine, OpKind::CloneVnr, OpKind::Snapshot,
+            ]);
+            let jump_ns = if s.chance(1, 5) {
+                let d = *cr.pick(&[seam::NS, 3600 * seam::NS, seam::DAY_NS, 40 * seam::DAY_NS, 400 * seam::DAY_NS]);
+                if cr.chance(1, 2) { d } else { -d }
+            } else {
+                0
+            };
+            ops.push(Op { caller: s.below(callers), subject: s.below(n_subj), kind, jump_ns });
+        }
+        Spec {
+            run_seed,
+            subjects,
+            e_w: derive(run_seed, "entropy/draw", 0),
+            e_h: derive(run_seed, "entropy/hash", 0),
+            paired_e_h: derive(run_seed, "entropy/hash", 1),
+            paired_sched: derive(run_seed, "sched", 1),
+            clock,
+            callers,
+            ops,
+        }
+    }
+
+    fn execute(env: &Env, spec: &Spec) -> (Outcome, Option<Spec>) {
+        let mut out = Outcome::default();
+        out.log.push(format!(
+            "run_seed={} engine=validate-history subjects={:?} e_w={} e_h={} paired_e_h={} paired_sched={} callers={} ops={} {}",
+            spec.run_seed,
+            spec.subjects.iter().map(|s| s.scenario.as_str()).collect::<Vec<_>>(),
+            hex(spec.e_w), hex(spec.e_h), hex(spec.paired_e_h), hex(spec.paired_sched), spec.callers, spec.ops.len(), spec.clock.describe()
+        ));
+        let mut scs = vec![];
+        for s in &spec.subjects {
+            match (scen::find(&env.scenarios, &s.scenario), scen::find(&env.scenarios, &s.donor)) {
+                (Some(a), Some(b)) => scs.push((a.clone(), b.clone())),
+                _ => {
+                    out.harness_error = Some(format!("scenario {} / {} not found", s.scenario, s.donor));
+                    return (out, None);
+                }
+            }
+        }
+        let ctx = spec.clock.ctx(spec.e_w);
+        let ctx2 = ctx.clone();
+        let spec2 = spec.clone();
+        let o2 = out.clone();
+        let res = on_fresh_thread(move || {
+            let mut out = o2;
+            let _a = seam::attach(&ctx2);
+            let mut resolved = spec2.clone();
+            // ---- generation phase (under E_w): subjects
+            let mut subjects: Vec<Subject> = vec![];
+            for (k, (ss, (sc, donor_sc))) in spec2.subjects.iter().zip(scs.iter()).enumerate() {
+                let generate = |v: &Value| datafake_rs::DataGenerator::from_value(v.clone()).ok().and_then(|g| g.generate().ok());
+                let Some(mut g) = generate(&sc.value) else {
+                    out.discard = Some("scenario draw failed".into());
+                    return (out, None);
+                };
+                let donor = generate(&donor_sc.value).unwrap_or(Value::Null);
+                let mut accepted: Vec<MutOp> = vec![];
+                match &ss.plan {
+                    MutPlan::Explicit(ops) => {
+                        for op in ops {
+                            if apply_op(&mut g, op) {
+                                accepted.push(op.clone());
+                            }
+                        }
+                    }
+                    MutPlan::Climb { seed, target, attempts } => {
+                        let mut r = Sm(*seed);
+                        let mut cur = build(&sc.mt, &g).and_then(|(_, p)| nerr(&p)).unwrap_or(0);
+                        for _ in 0..*attempts {
+                            if cur >= *target {
+                                break;
+                            }
+                            let Some(op) = propose(&g, &donor, &mut r) else { continue };
+                            let saved = g.clone();
+                            if !apply_op(&mut g, &op) {
+                                g = saved;
+                                continue;
+                            }
+                            match build(&sc.mt, &g).and_then(|(_, p)| nerr(&p)) {
+                                Some(n) if n >= cur => {
+                                    if n > cur || r.chance(1, 3) {
+                                        accepted.push(op);
+                                        cur = n;
+                                    } else {
+                                        g = saved;
+                                    }
+                                }
+                                _ => g = saved,
+                            }
+                        }
+                    }
+                }
+                let Some((text, parsed)) = build(&sc.mt, &g) else {
+                    out.discard = Some(format!("subject outside the domain (not publishable / not parseable): MT{}", sc.mt));
+                    return (out, None);
+                };
+                resolved.subjects[k].plan = MutPlan::Explicit(accepted.clone());
+                let snap = snap_digest(&parsed);
+                out.log.push(format!("subject {k} MT{} text={} bytes={} muts={}", parsed.message_type(), hex(fnv_str(&text)), text.len(), serde_json::to_string(&accepted).unwrap_or_default().chars().take(300).collect::<String>()));
+                subjects.push(Subject { mt: parsed.message_type().to_string(), text, parsed, snap });
+            }
+            out.content_digest = fnv_str(&subjects.iter().map(|s| s.text.as_str()).collect::<Vec<_>>().join("\u{1}"));
+            let subjects = Arc::new(subjects);
+
+            // ---- operations phase A
+            let a = run_phase(&ctx2, spec2.e_h, &subjects, spec2.callers, &spec2.ops, 0);
+            for l in &a.log {
+                out.log.push(format!("A {l}"));
+            }
+            out.count("exec.polls", a.polls);
+            if let Some(h) = a.harness {
+                out.harness_error = Some(h);
+                return (out, Some(resolved));
+            }
+            if let Some(d) = a.discard {
+                out.discard = Some(d);
+                return (out, Some(resolved));
+            }
+            if let Some(v) = a.violation {
+                out.violation = Some(v);
+                return (out, Some(resolved));
+            }
+            // ---- paired phase B: second hash entropy, second schedule (ops permuted, callers rotated)
+            let mut ops_b = spec2.ops.clone();
+            let mut pr = Sm(spec2.paired_sched);
+            for i in (1..ops_b.len()).rev() {
+                ops_b.swap(i, pr.below(i + 1));
+            }
+            let b = run_phase(&ctx2, spec2.paired_e_h, &subjects, spec2.callers, &ops_b, 1 + pr.below(3));
+            out.count("paired_runs", 1);
+            out.count("exec.polls", b.polls);
+            out.log.push(format!("B history={}", hex(fnv_str(&b.log.join("\n")))));
+            if let Some(h) = b.harness {
+                out.harness_error = Some(h);
+                return (out, Some(resolved));
+            }
+            if let Some(d) = b.discard {
+                out.discard = Some(d);
+                return (out, Some(resolved));
+            }
+            if let Some(mut v) = b.violation {
+                v.detail = format!("(in the paired execution under the second hash entropy and schedule) {}", v.detail);
+                out.violation = Some(v);
+                return (out, Some(resolved));
+            }
+            // I7: same subjects, different hash entropy and schedule, same L(m)
+            for (m, s) in subjects.iter().enumerate() {
+                if let (Some((la, ca)), Some((lb, cb))) = (a.history.l(m), b.history.l(m)) {
+                    if la != lb {
+                        let code = first_diff_code(la, ca, lb, cb);
+                        out.violation = Some(viol(
+                            format!("C13/I7 MT{} {code} error list depends on hash entropy or schedule", s.mt),
+                            format!("subject {m}: first execution returned {}, paired execution returned {}", show_errs(la), show_errs(lb)),
+                        ));
+                        return (out, Some(resolved));
+                    }
+                }
+            }
+            // reach
+            let mut nontrivial = false;
+            for (m, s) in subjects.iter().enumerate() {
+                if let Some((l, codes)) = a.history.l(m) {
+                    out.count(match l.len() { 0 => "probe.subject_errors_0", 1 => "probe.subject_errors_1", 2 => "probe.subject_errors_2", _ => "probe.subject_errors_3plus" }, 1);
+                    for c in codes {
+                        out.count(&format!("pair.MT{}:{c}", s.mt), 1);
+                    }
+                    let n_ops = a.history.recs.iter().filter(|r| r.2 == m).count();
+                    if !l.is_empty() && n_ops >= 2 {
+                        nontrivial = true;
+                    }
+                    if l.len() >= 2 && a.history.recs.iter().any(|r| r.2 == m && r.3 == OpKind::VnrStop && matches!(&r.4, OpResult::Errors(v, _) if v.len() < l.len())) {
+                        out.count("probe.stop_mode_truncated_a_multi_error_list", 1);
+                    }
+                }
+            }
+            out.nontrivial = nontrivial;
+            out.count("operations", (a.history.recs.len() + b.history.recs.len()) as u64);
+            (out, Some(resolved))
+        });
+        let (mut out, resolved) = match res {
+            Ok(x) => x,
+            Err(p) => {
+                out.discard = Some(format!("panic in harness thread: {}", p.chars().take(80).collect::<String>()));
+                (out, None)
+            }
+        };
+        out.absorb_ctx(&ctx);
+        let shape: Vec<String> = spec.ops.iter().map(|o| format!("{}{:?}{}", o.caller, o.kind, o.subject)).collect();
+        out.shape_digest = fnv_str(&format!("{}|{}", spec.callers, shape.join(" ")));
+        out.count(&format!("callers.{}", spec.callers.clamp(1, 4)), 1);
+        (out, resolved)
+    }
+
+    fn shrink_candidates(spec: &Spec) -> Vec<Spec> {
+        let mut v = vec![];
+        // fewer subjects
+        if spec.subjects.len() > 1 {
+            for k in 0..spec.subjects.len() {
+                let mut s = spec.clone();
+                s.subjects.remove(k);
+                s.ops = s.ops.into_iter().filter(|o| o.subject % spec.subjects.len() != k).map(|mut o| {
+                    let m = o.subject % spec.subjects.len();
+                    o.subject = if m > k { m - 1 } else { m };
+                    o
+                }).collect();
+                v.push(s);
+            }
+        }
+        if spec.callers > 1 {
+            let mut s = spec.clone();
+            s.callers = 1;
+            v.push(s);
+        }
+        let plain = ClockCfg::plain();
+        if spec.clock != plain {
+            let mut s = spec.clone();
+            s.clock = plain;
+            v.push(s);
+        }
+        if spec.ops.iter().any(|o| o.jump_ns != 0) {
+            let mut s = spec.clone();
+            s.ops.iter_mut().for_each(|o| o.jump_ns = 0);
+            v.push(s);
+        }
+        let n = spec.ops.len();
+        if n > 1 {
+            let mut s = spec.clone();
+            s.ops.truncate(n / 2);
+            v.push(s);
+            let mut s = spec.clone();
+            s.ops.drain(..n / 2);
+            v.push(s);
+        }
+        for k in (0..n).rev() {
+            let mut s = spec.clone();
+            s.ops.remove(k);
+            v.push(s);
+        }
+        for (k, sub) in spec.subjects.iter().enumerate() {
+            if let MutPlan::Explicit(ops) = &sub.plan {
+                for j in 0..ops.len() {
+                    let mut s = spec.clone();
+                    let mut o = ops.clone();
+                    o.remove(j);
+                    s.subjects[k].plan = MutPlan::Explicit(o);
+                    v.push(s);
+                }
+            }
+        }
+        v
+    }
+
+    fn describe(spec: &Spec) -> Value {
+        json!({"subjects": spec.subjects.iter().map(|s| json!({"scenario": s.scenario, "donor": s.donor, "plan": match &s.plan { MutPlan::Climb { target, attempts, .. } => format!("hill-climb to {target} errors in <= {attempts} attempts"), MutPlan::Explicit(o) => format!("{} explicit mutations", o.len()) }})).collect::<Vec<_>>(),
+               "callers": spec.callers, "ops": spec.ops.len(), "clock": spec.clock.describe(),
+               "e_w": hex(spec.e_w), "e_h": hex(spec.e_h), "paired_e_h": hex(spec.paired_e_h)})
+    }
 }
+
+#[allow(unused_imports)]
+use on_parsed as _;
